@@ -264,6 +264,16 @@ func (n *LNNode) Pay(life *Life, payreq, scid string, limit uint32, kind string)
 		}
 		n.w.recordLocked(o)
 	}
+	// a blocking call (hold / join-pending) also leaves a record when it RETURNS to a live
+	// incarnation (kind + ".ret"), so that an oracle can tell whether a payment call was still
+	// outstanding at some later moment
+	retObs := func(what string) {
+		o := Obs{Node: n.ID, Kind: kind + ".ret", Hash: inv.Hash, Result: what}
+		if life != nil {
+			o.Inc = life.Inc
+		}
+		n.w.recordLocked(o)
+	}
 	switch p.State {
 	case PaySucceeded:
 		if n.LND {
@@ -294,6 +304,7 @@ func (n *LNNode) Pay(life *Life, payreq, scid string, limit uint32, kind string)
 		}
 		n.w.mu.Lock()
 		defer n.w.mu.Unlock()
+		retObs("join-pending")
 		if p.State == PaySucceeded {
 			return p.Preimage, nil
 		}
@@ -341,6 +352,7 @@ func (n *LNNode) Pay(life *Life, payreq, scid string, limit uint32, kind string)
 		}
 		n.w.mu.Lock()
 		defer n.w.mu.Unlock()
+		retObs("hold")
 		if p.State == PaySucceeded {
 			return p.Preimage, nil
 		}
